@@ -20,7 +20,7 @@ impl Env {
 
     Ok(Self::new(
       dir,
-      env::args(),
+      env::args_os(),
       Box::new(io::stdin()),
       out_stream,
       err_stream,
@@ -46,6 +46,18 @@ impl Env {
 
       app
     };
+
+    // clap panics on some arguments that are not valid UTF-8 (unknown flags, values
+    // read as strings), so refuse them up front, the way clap itself reports them.
+    if self.args.iter().any(|arg| arg.to_str().is_none()) {
+      return Err(
+        structopt::clap::Error::with_description(
+          "Invalid UTF-8 was detected in one or more arguments",
+          structopt::clap::ErrorKind::InvalidUtf8,
+        )
+        .into(),
+      );
+    }
 
     let matches = app.get_matches_from_safe(&self.args)?;
 
